@@ -122,7 +122,7 @@ def r1_emission(run, F):
     # Loop arm: MisplacedLoopStatement on the !is_in_block edge
     mm = None
     for x in hirq.matches(st["hir"]):
-        if hirq.local_name_of(x["scrut"]) == "self" and len(x["arms"]) >= 8:
+        if hirq.local_name_of(x["scrut"]) == "self" and hirq.n_alts(x) >= 8:
             mm = x
     run.require(mm is not None, "main match of Statement::analyze not found")
     la = hirq.arm_for(mm, "Statement::Loop")
@@ -138,7 +138,7 @@ def r1_emission(run, F):
     run.ob("R1-LOOP-PLACEMENT", "Loop arm", ok, F.where(st), "`loop` is kept when is_in_block and becomes MisplacedLoopStatement (E801) otherwise")
     # codes
     code = F.body("alpha::error::Error::code")
-    cm = [x for x in hirq.matches(code["hir"]) if len(x["arms"]) > 40][0]
+    cm = [x for x in hirq.matches(code["hir"]) if hirq.n_alts(x) > 40][0]
     rows = {hirq.pat_key(a["pat"]): hirq.unwrap_trivial(a["body"]).get("v") for a in cm["arms"]}
     for v, c in (("Error::NonFinalLoopStatement", 800), ("Error::MisplacedLoopStatement", 801), ("Error::MissingBraces", 840), ("Error::LoopAsFirstStatement", 1800)):
         run.ob("R1-CODES", v, rows.get(v) == c, F.where(code), "%s must have code %d (found %s)" % (v, c, rows.get(v)))
@@ -185,7 +185,7 @@ def r3_lint(run, F):
     run.ob("R3-LINT-FLAGS", "Block::lint order", names == ["set:derived", "lint:first", "set:None", "lint:statement"], F.where(bl),
            "only the first statement of a branch block may see the flag: %s" % names)
     # Loop arm: push lint only when take() is Some
-    mm = [x for x in hirq.matches(st["hir"]) if len(x["arms"]) >= 8]
+    mm = [x for x in hirq.matches(st["hir"]) if hirq.n_alts(x) >= 8]
     la = hirq.arm_for(mm[0], "Statement::Loop") if mm else []
     ok = False
     if la:
@@ -282,7 +282,7 @@ def r4_generator(run, F):
            "a block ending in `loop` generates statements[0..len-1] inside a looped basic block with a back edge; "
            "the generator's `Statement::Loop => unreachable!()` relies on it")
     s = F.body("<alpha::resolved::Statement as alpha::generator::Generatable>::generate")
-    mm = [x for x in hirq.matches(s["hir"]) if len(x["arms"]) >= 6]
+    mm = [x for x in hirq.matches(s["hir"]) if hirq.n_alts(x) >= 6]
     la = hirq.arm_for(mm[0], "Statement::Loop") if mm else []
     run.ob("R4-LOOP-PEELED", "Statement::Loop arm is unreachable!()", bool(la) and any(hirq.panic_kind(c) == "unreachable" for c in hirq.calls(la[0]["body"])),
            F.where(s), "documented dependency (if this arm ever generates code the rule above must be revisited)")
